@@ -16,8 +16,8 @@ import (
 	"fmt"
 	"os"
 	"path/filepath"
-	"sort"
 	"runtime"
+	"sort"
 	"strconv"
 	"strings"
 	"sync"
@@ -43,7 +43,10 @@ func init() {
 	domains["load"] = domain{runLoad,
 		"include trees of 2..6 files (depth <= 3 quick / 4 thorough; diamonds, one file under several namespaces, " +
 			"cycles, missing/optional files, version/dotenv errors) with every include option and task attribute drawn " +
-			"independently and small shared pools of task, namespace, alias and variable names; each tree is loaded 20 " +
+			"independently and small shared pools of task, namespace, alias and variable names; dependencies and task: " +
+			"targets are own names, ':'-prefixed root references (in the root file, at depth 1..3(4), inside and below " +
+			"flattened includes; each such tree is also checked by the root-reference monitor load.refs), references " +
+			"into includes and unknown names; each tree is loaded 20 " +
 			"(quick) / 100 (thorough) times in one process; distinct = tree shape (include edges with options, task " +
 			"names per file) having at least one include and one task or variable name defined at two sites"}
 }
@@ -97,7 +100,7 @@ type ldFile struct {
 }
 
 type ldCase struct {
-	Op    string   `json:"op"` // "tree" | "refs"
+	Op    string   `json:"op"`              // "tree" | "refs"
 	Probe int      `json:"probe,omitempty"` // k > 0: compile every k-th merged task on the first load
 	Root  int      `json:"root"`
 	Files []ldFile `json:"files"`
@@ -1005,8 +1008,14 @@ func (c *Ctx) genRef(own []string, rootTasks []string) string {
 	}
 }
 
-func (c *Ctx) genTasks(rootTasks []string) []ldTask {
+// genTasks draws the tasks of one file.  rootTasks are the task names of the root file
+// (targets of ':'-references); for the root file itself (isRoot) they are its own names:
+// ':x' written in the root file is a reference to the root's x as well.
+func (c *Ctx) genTasks(rootTasks []string, isRoot bool) []ldTask {
 	names := c.pickSome(ldTaskNames, 4)
+	if isRoot {
+		rootTasks = names
+	}
 	var out []ldTask
 	allAttrs := c.chance(8)
 	for _, n := range names {
@@ -1088,11 +1097,11 @@ func (c *Ctx) genInclude(ns string, target int, childTasks []string) ldInclude {
 // ldGenCfg biases the tree generator.
 type ldGenCfg struct {
 	maxDepth     int
-	pRootParent  int // chance (percent) that a file is included by the root itself
-	pExtraParent int // chance per candidate of an additional parent (diamonds)
-	pTwice       int // chance that an include statement is doubled under another namespace
-	keyPool      int // variable names are drawn from K1..K<keyPool>
-	pInject      int // percent of trees with an injected load error (scaled)
+	pRootParent  int  // chance (percent) that a file is included by the root itself
+	pExtraParent int  // chance per candidate of an additional parent (diamonds)
+	pTwice       int  // chance that an include statement is doubled under another namespace
+	keyPool      int  // variable names are drawn from K1..K<keyPool>
+	pInject      int  // percent of trees with an injected load error (scaled)
 	refsMonitor  bool // also evaluate the root-reference monitor (property C08 only)
 }
 
@@ -1178,7 +1187,7 @@ func (c *Ctx) genTree(cfg ldGenCfg) ldCase {
 	// tasks (root first: its names feed ':'-references)
 	var rootTasks []string
 	for i := 0; i < n; i++ {
-		gf[i].f.Tasks = c.genTasks(rootTasks)
+		gf[i].f.Tasks = c.genTasks(rootTasks, i == 0)
 		if i == 0 {
 			for _, t := range gf[0].f.Tasks {
 				rootTasks = append(rootTasks, t.Name)
@@ -1230,6 +1239,38 @@ func (c *Ctx) genTree(cfg ldGenCfg) ldCase {
 	for i := 0; i < n; i++ {
 		incs := gf[i].f.Includes
 		c.Rng.Shuffle(len(incs), func(a, b int) { incs[a], incs[b] = incs[b], incs[a] })
+	}
+	// where do ':'-references sit: in the root file, at which include depth, inside or below a flattened include
+	idx := map[int]int{}
+	for i := range gf {
+		idx[gf[i].f.ID] = i
+	}
+	flatDirect := make([]bool, n) // some include statement naming the file is flattened
+	flatAbove := make([]bool, n)  // some include path from the root to the file has a flattened level
+	for p := 0; p < n; p++ {
+		for _, inc := range gf[p].f.Includes {
+			if ch, ok := idx[inc.File]; ok && ch > p {
+				flatDirect[ch] = flatDirect[ch] || inc.Flatten
+				flatAbove[ch] = flatAbove[ch] || inc.Flatten || flatAbove[p]
+			}
+		}
+	}
+	for i := 0; i < n; i++ {
+		one := ldCase{Files: []ldFile{gf[i].f}}
+		if !hasColonRef(&one) {
+			continue
+		}
+		if i == 0 {
+			c.Hit("rootref:in-root-file")
+			continue
+		}
+		c.Hit(fmt.Sprintf("rootref:depth%d", gf[i].depth))
+		if flatDirect[i] {
+			c.Hit("rootref:in-flattened-include")
+		}
+		if flatAbove[i] && gf[i].depth >= 2 {
+			c.Hit("rootref:depth>=2-with-flattened-level")
+		}
 	}
 	// one injected load error at most
 	note := ""
